@@ -76,3 +76,17 @@ for _pid, _what in [
                       technique=_B, design_ref='DESIGN.md section 6 ' + _pid)
     NOT_APPLICABLE.pop(_pid, None)
 PROPS['C05']['rac'] = True
+
+PROPS['C02'].update(level='other', explanation='Deductive (counted as proved): _listby (sort contract + run-length grouping loop with ghost group ends) '
+    'establishes that the groups tile the sorted rows, keys are strictly increasing under cmp, members carry the group key and every row is listed; '
+    'the merge loops of join and xor (outer loop + two inner loops, invariants with ghost match positions, variants) establish that the recorded group '
+    'pairs are exactly those with cmp-equal keys (join) / the selected groups are exactly those without a cmp-equal key on the other side (xor, both modes, '
+    'including the tail), in key order, and that all loops terminate; the partition law is a lemma over the two postconditions. '
+    'Bounded (not proved): column spellings, expansion of matched groups into rows, mode handling, empty tables.')
+TEXT['C02'].update(
+    level_text='Mixed: the grouping and merge algorithms (where the termination and matching defects lived) are proved for all key multisets and table sizes '
+               'from the real AST with loop invariants and variants; the row-level expansion and argument spellings are covered by the bounded stand-in only, '
+               'so the claim is "other", not "proof".',
+    level_note='Hypotheses taken from other properties: cmp is a total preorder (C07), sort returns a cmp-non-decreasing permutation (C07), '
+               'dictable.__getitem__ projections (C01). Trusted: VC generator, array/list axioms, z3/cvc5. Known finding: xor with zero key columns.',
+    technique='contract-based deductive verification (AST-generated VCs, loop invariants, ghost state, z3/cvc5) + bounded run-time contract check')
